@@ -23,8 +23,8 @@ import (
 // timers that the driver fires, published events are recorded.  No sockets, no goroutines, no sleeping.
 
 type gsim struct {
-	names     []string // node names in address order
-	seeds     []string // seed node names
+	names     []string            // node names in address order
+	seeds     []string            // seed node names
 	seedsOf   map[string][]string // nodes configured with a seed list of their own
 	nodes     map[string]*gnode
 	chans     map[[2]string][]vivid.Message
